@@ -2,7 +2,6 @@ package props
 
 import (
 	"fmt"
-	"go/constant"
 	"go/token"
 	"go/types"
 	"sort"
@@ -377,27 +376,18 @@ func (x *Ctx) depthGuardBefore(fn *ssa.Function, c *ssa.Call) string {
 		if !ok {
 			continue
 		}
-		be, ok := iff.Cond.(*ssa.BinOp)
+		// the condition, seen through a private predicate helper (`func (h *T) tooDeep() bool { return h.depth > K }`)
+		be := x.condRX(iff.Cond)
+		if be == nil || be.X == nil || be.Y == nil {
+			continue
+		}
+		if !be.X.isFieldLoad(recv, x.fld("depth")) {
+			continue
+		}
+		kv, ok := be.Y.constInt()
 		if !ok {
 			continue
 		}
-		ld, ok := be.X.(*ssa.UnOp)
-		if !ok || ld.Op != token.MUL {
-			continue
-		}
-		fa, ok := ld.X.(*ssa.FieldAddr)
-		if !ok || fa.X != recv {
-			continue
-		}
-		st := structOfType(fa.X.Type())
-		if st == nil || st.Field(fa.Field).Name() != x.fld("depth") {
-			continue
-		}
-		k, ok := be.Y.(*ssa.Const)
-		if !ok || k.Value == nil {
-			continue
-		}
-		kv, _ := constant.Int64Val(k.Value)
 		// guard true when depth exceeds the limit: depth > K  or depth >= K+1
 		limit := int64(-1)
 		switch be.Op {
@@ -601,7 +591,6 @@ func init() { Registry["C10"] = Prop{"other", C10} }
 var _ = types.Identical
 var _ = machine.IsMachine
 
-
 // isDecodedTreeType: interface{}, []interface{} or map[string]interface{} — the types of a decoded value tree.
 func isDecodedTreeType(t types.Type) bool {
 	isEmptyIface := func(t types.Type) bool {
@@ -618,4 +607,37 @@ func isDecodedTreeType(t types.Type) bool {
 		return ok && b.Kind() == types.String && isEmptyIface(u.Elem())
 	}
 	return false
+}
+
+// condRX: a branch condition resolved into the frame of the branching function: the comparison itself, or — when the
+// condition is the result of a private single-return predicate helper — that helper's returned expression with its
+// parameters replaced by the arguments.
+func (x *Ctx) condRX(cond ssa.Value) *RX {
+	for depth := 0; depth < 3; depth++ {
+		c, ok := cond.(*ssa.Call)
+		if !ok {
+			break
+		}
+		h := c.Call.StaticCallee()
+		if h == nil || !x.isPrivateHelper(h) || len(h.Blocks) != 1 || h.Signature.Results().Len() != 1 || len(h.Params) != len(c.Call.Args) {
+			break
+		}
+		ret, ok := h.Blocks[0].Instrs[len(h.Blocks[0].Instrs)-1].(*ssa.Return)
+		if !ok {
+			break
+		}
+		// the helper must only compute (no stores, no calls)
+		for _, ins := range h.Blocks[0].Instrs {
+			switch ins.(type) {
+			case *ssa.Store, *ssa.Call, *ssa.MapUpdate, *ssa.Send, *ssa.Go, *ssa.Defer:
+				return nil
+			}
+		}
+		bind := map[ssa.Value]*RX{}
+		for i, p := range h.Params {
+			bind[p] = resolveRX(c.Call.Args[i], nil)
+		}
+		return resolveRX(ret.Results[0], bind)
+	}
+	return resolveRX(cond, nil)
 }
